@@ -21,7 +21,7 @@ try:
                 summ = json.load(open(m.group(1))).get('summary', '')[:400]
             except Exception:
                 pass
-        meta.setdefault('checks_run', {})[c] = dict(caught=caught, rc=p.returncode, line=(lines[0] if lines else p.stdout.strip().splitlines()[-1]), summary=summ)
+        meta.setdefault('checks_run', {})[c] = dict(caught=caught, rc=p.returncode, line=(lines[0] if lines else (p.stdout.strip().splitlines() or ['(no output)'])[-1]), summary=summ)
         det = set(meta.get('detected_by', []))
         (det.add if caught else det.discard)(c)
         meta['detected_by'] = sorted(det)
